@@ -182,9 +182,15 @@ func nt(r *rand.Rand, maxN int) (int, int) {
 func genC02(tier string, seed uint64, run int) *Scenario {
 	r := rand.New(rand.NewPCG(seedFor(seed, "C02", run, "gen"), 1))
 	n, t := nt(r, 6)
+	if run%16 == 9 {
+		// a larger committee now and then (party indices with two digits, many signers)
+		n = 7 + r.IntN(6)
+		t = 1 + r.IntN(n-1)
+	}
 	s := t + 1 + r.IntN(n-t)
 	sc := &Scenario{Check: "C02", Kind: "proto", Seed: seed, Run: run, P: map[string]interface{}{
 		"proto": "ed-sign", "n": n, "t": t, "signers": s, "ids": idPatterns[r.IntN(len(idPatterns))], "idpool": r.IntN(3), "msg": edMsgKinds[run%len(edMsgKinds)],
+		"edges": (run/4)%2 == 1,
 	}}
 	sc.Sched = GenSched(r, s, true, false)
 	return sc
@@ -196,7 +202,8 @@ func genC01(tier string, seed uint64, run int) *Scenario {
 	if run%8 == 7 {
 		return &Scenario{Check: "C01", Kind: "ec-refuse", Seed: seed, Run: run, P: map[string]interface{}{"which": run / 8 % 3}}
 	}
-	p := map[string]interface{}{"proto": "ec-sign", "msg": ecDigestKinds[run%len(ecDigestKinds)]}
+	// (edges: about one entropy read in 64 returns a value with 1-3 leading zero bytes; half of the runs)
+	p := map[string]interface{}{"proto": "ec-sign", "msg": ecDigestKinds[run%len(ecDigestKinds)], "edges": (run/4)%2 == 1}
 	var s int
 	if tier == "thorough" && run%3 == 0 {
 		cfgs := [][2]int{{2, 1}, {3, 1}, {3, 2}, {4, 2}, {5, 1}, {5, 4}, {4, 3}}
@@ -241,7 +248,14 @@ func genC03(tier string, seed uint64, run int) *Scenario {
 	} else {
 		p["proto"] = "ed-keygen"
 		n, t = nt(r, 5)
+		if run%16 == 9 {
+			// a larger committee now and then (party indices with two digits, high thresholds)
+			n = 7 + r.IntN(6)
+			t = 1 + r.IntN(n-1)
+			p["maxsubsets"] = 60
+		}
 	}
+	p["edges"] = (run/4)%2 == 1
 	p["n"], p["t"] = n, t
 	if run%8 == 5 || (tier != "thorough" && run == 11) { // (run 11 is an ECDSA run: run%8 == 5 never is one in quick)
 		p["ids"] = "congruent" // two ids equal modulo q: must be refused, or still yield a sound sharing
@@ -305,6 +319,11 @@ func fillProtoParams(r *rand.Rand, tier string, proto string, p map[string]inter
 			n, t := nt(r, 4)
 			part := t + 1 + r.IntN(n-t)
 			nn, ntt := nt(r, 4)
+			if r.IntN(8) == 0 {
+				// committees of very different sizes now and then
+				nn = 5 + r.IntN(4)
+				ntt = 1 + r.IntN(nn-1)
+			}
 			p["n"], p["t"], p["oldpart"], p["newn"], p["newt"] = n, t, part, nn, ntt
 			nodes = part + nn
 		}
@@ -312,6 +331,9 @@ func fillProtoParams(r *rand.Rand, tier string, proto string, p map[string]inter
 	}
 	p["ids"] = idPatterns[r.IntN(len(idPatterns))]
 	p["idpool"] = r.IntN(3)
+	if _, set := p["edges"]; !set {
+		p["edges"] = r.IntN(2) == 0 // entropy with leading-zero values in half of the runs
+	}
 	return nodes
 }
 
